@@ -791,6 +791,12 @@ var probes = []probe{
 	{"d", "ndice", []string{"push.def_expr"}},
 	{"1|2", "bitwise", []string{"|"}},
 	{"1&2", "bitwise", []string{"&"}},
+	// inside an st value a bare `d` / `<n>d` is never a die, whatever the VM's own switches say (est closes the gate for
+	// the value): the gate "never" is closed under every configuration
+	{"^st力量3d敏捷70", "never", nil},
+	{"^sta3d b4", "never", nil},
+	{"^stx2d,y3", "never", nil},
+	{"^st力量=3d敏捷=4", "never", nil},
 }
 
 // checkProbes parses every probe on vm and compares the gated instructions with the prescription.
@@ -808,7 +814,7 @@ func checkProbes(vm *ds.Context, cfg vmx.Cfg) (sig, observed, expected string) {
 			}
 		}
 		var want []string
-		if gateOpen(cfg, p.gate) {
+		if p.gate != "never" && gateOpen(cfg, p.gate) {
 			want = p.want
 		}
 		if strings.Join(got, ",") != strings.Join(want, ",") {
@@ -1005,6 +1011,25 @@ type LazyCase struct {
 	Cfg  vmx.Cfg `json:"cfg"`
 	Body string  `json:"body"`
 	How  string  `json:"how"` // func-json | func-raw | computed-json | computed-new | runexpr | defside
+	// MacroCall: the script that makes the first call opens every family the configuration keeps closed with
+	// `// #EnableDice <family> true` lines of its own: a macro is for its input, not for a body compiled while it runs
+	MacroCall bool `json:"macroCall,omitempty"`
+}
+
+func macroFor(c vmx.Cfg, on bool) string {
+	var sb strings.Builder
+	for _, f := range []struct {
+		name string
+		open bool
+	}{{"wod", c.WoD}, {"coc", c.CoC}, {"fate", c.Fate}, {"doublecross", c.DC}} {
+		if !f.open {
+			sb.WriteString("// #EnableDice " + f.name + " true\n")
+		}
+	}
+	if !on {
+		return ""
+	}
+	return sb.String()
 }
 
 func sortedBytes(s string) string {
@@ -1047,7 +1072,7 @@ func checkLazy(c LazyCase, s *rt.Section) (f *rt.Failure, compiled bool, gated [
 			}
 		}
 		vm.Attrs.Store("g", val)
-		if pi, _ := guarded(func() { _ = vm.Run("g()") }); pi != nil {
+		if pi, _ := guarded(func() { _ = vm.Run(macroFor(c.Cfg, c.MacroCall) + "g()") }); pi != nil {
 			return fail(pi, "calling the restored function"), false, nil
 		}
 	case "computed-json", "computed-new":
@@ -1059,7 +1084,7 @@ func checkLazy(c LazyCase, s *rt.Section) (f *rt.Failure, compiled bool, gated [
 			}
 		}
 		vm.Attrs.Store("g", val)
-		if pi, _ := guarded(func() { _ = vm.Run("g") }); pi != nil {
+		if pi, _ := guarded(func() { _ = vm.Run(macroFor(c.Cfg, c.MacroCall) + "g") }); pi != nil {
 			return fail(pi, "loading the restored computed value"), false, nil
 		}
 	case "runexpr", "defside":
@@ -1397,6 +1422,7 @@ func TestProp(t *testing.T) {
 		func(t *rapid.T, s *rt.Section) {
 			c := LazyCase{Cfg: drawCfg(t)}
 			c.How = rapid.SampledFrom([]string{"func-json", "func-raw", "computed-json", "computed-new", "runexpr", "defside"}).Draw(t, "how")
+			c.MacroCall = rapid.IntRange(0, 2).Draw(t, "macroCall") == 0
 			if c.How == "defside" && c.Cfg.NoNDice {
 				c.How = "runexpr" // a side-less d is an identifier under DisableNDice: nothing would be compiled
 			}
